@@ -1,6 +1,7 @@
 #!/bin/bash
 # (re)create _CoqProject and Makefile from the files present; then run make with the given targets
 cd "$(dirname "$0")"
+exec 9>.mklock; flock 9
 {
   echo "-Q base Base"; echo "-Q gen Gen"; echo "-Q model Model"; echo "-Q proofs Proofs"; echo "-Q props Props"
   find base gen model proofs props -name '*.v' | sort
